@@ -154,10 +154,30 @@ J gen_tunnel(uint64_t seed, const J &ov)
 	if (mode == "clean" || mode == "clean9") {
 		double W = 10 + r.uniform() * 25;
 		int maxlen = r.chance(0.8) ? 1200 : 4000;
+		if (mode == "clean" && r.chance(0.3)) {
+			// a long steady flow in ONE direction only (a UDP stream, a download without acks): nothing but the programs' own
+			// keepalives crosses the other way for more than both 60 s timeouts
+			W = 70 + r.uniform() * 50;
+			bool up = r.chance(0.5);
+			double t = 0.2, gap = 0.3 + r.uniform() * (r.chance(0.5) ? 3 : 15);
+			while (t < W) {
+				J op = J::obj(); op.set("t", (long long)(t * 1e6)); op.set("op", "tun"); op.set("at", up ? "c0" : "srv"); op.set("ser", (long long)++ser);
+				op.set("len", (int)r.range(60, 600)); op.set("body", "rnd"); op.set("dst", up ? "srv" : "c0"); op.set("src", up ? "c0" : "ext");
+				ops.push(op);
+				t += gap * (0.5 + r.uniform());
+			}
+			// ... and afterwards both directions must still work
+			gen_traffic(r, ops, "c0", "srv", 6, W + 2, W + 12, ser, 600, true);
+			gen_traffic(r, ops, "srv", "c0", 6, W + 2, W + 12, ser, 600, true);
+			cfg.set("one_way", up ? "up" : "down");
+			cfg.set("dur_s", (int)(W + 40));
+			cfg.set("tmax_s", 600);
+		} else {
 		gen_traffic(r, ops, "c0", r.chance(0.5) ? "srv" : "ext", (int)r.range(20, 45), 0.1, W, ser, maxlen, true);
 		gen_traffic(r, ops, "srv", "c0", (int)r.range(20, 45), 0.1, W, ser, maxlen, true);
 		cfg.set("dur_s", (int)(W + 45));
 		cfg.set("tmax_s", 600);
+		}
 	} else if (mode == "faulty") {
 		double W = 10 + r.uniform() * 40;
 		int maxlen = r.chance(0.7) ? 1504 : 60000;
